@@ -1,3 +1,3 @@
 SPECIFICATION GenSpec
-CONSTANTS Kinds = {"K1", "K2"}  Ids = {1, 2}  Ctrls = {"q"}  Cfg <- CfgD  Alt <- AltNoneQ  Cached = {"K2"}  MaxWrites = 7  MaxFaults = 1  MapTo <- MapAll
+CONSTANTS Kinds = {"K1", "K2"}  Ids = {1, 2}  Ctrls = {"q"}  Cfg <- CfgD  Alt <- AltNoneQ  Cached = {"K2"}  MaxWrites = 7  MaxFaults = 1  Noops = TRUE  MapTo <- MapAll
 CHECK_DEADLOCK FALSE
